@@ -7,14 +7,16 @@ Target (`grow_to_max`): for every unit count, head count, block size and limit a
 configured maximum succeeds, `high_water ≤ limit` throughout, and `current_units ≤
 current_capacity` (so every unit up to the grown size has its two entries inside the mapped table).
 
-**The target is false for the code as written** (`grow_to_max_false`, by `decide`): in
+**The target was false for the pinned code** ("the code as written" below = the pinned tree, before the `fix:` commit
+b3df40b; `grow_to_max_false`, by `decide`): in
 `raise_high_water` the clamp is `grow_extent = self.high_water - self.limit` — operands swapped —
 so whenever the last block would cross `limit` (i.e. `size_in_pages(units, heads)` is not a
 multiple of `pages_per_block`) the subtraction underflows: an assertion failure in debug builds, a
 wrapped ~2^64-byte `mmap` request in release builds.  What is true of the code as written is
 `grow_to_max_partial` (whole blocks fit below the limit).  The section "after the fix" models the
 minimal repair (`limit - high_water`, and a capacity computed from the mapped bytes instead of
-whole blocks) and proves the full theorem for it.
+whole blocks) — which is what /repo now contains; the differential of `checks/C27.py` runs against that model — and
+proves the full theorem for it.
 -/
 namespace Mmtk.FreeList
 
